@@ -522,6 +522,9 @@ def monitorDamping (evs : List Ev) (peer : String) (conns : List ConnInfo) (trig
     for e in evs do
       if e.peer == peer && e.ev == "dial" && e.t > t0 + 5 * ms && e.t < until_ then
         fails := fails ++ [s!"C12 an outbound attempt was made {(e.t - t0) / ms} ms after a protocol error ({what}): no hold-down"]
+    for e in evs do
+      if e.peer == peer && e.ev == "cb.enter" && e.arg 0 == "OnEstablished" && e.t > t0 + 5 * ms && e.t < until_ then
+        fails := fails ++ [s!"C12 a session was Established {(e.t - t0) / ms} ms after a protocol error ({what}): the other connection was not dropped and the peer not held down"]
     for c in conns do
       -- served = corebgp sent its OPEN on it after the error
       let tServed := (c.recvs.head?.map (·.2.1)).getD 0
